@@ -18,7 +18,9 @@ import time
 from harness import common, tg, tgref
 
 REQUIRED = ["solve_goals_reachable_partial", "solve_goals_reachable_fresh", "solve_keeps_inv",
-            "find_node_backwards_sound", "provisional_witness", "solve_goals_reachable_not_full"]
+            "solve_goals_reachable_acyclic", "solve_eq_memo_free", "spec_unfold",
+            "find_node_backwards_sound", "find_node_backwards_iff", "remove_finished_goals_sound", "built_graph_wf",
+            "provisional_witness", "solve_goals_reachable_not_full"]
 
 WORKERS = 14
 
